@@ -17,6 +17,13 @@ type noCopy struct{}
 func (*noCopy) Lock()   {}
 func (*noCopy) Unlock() {}
 
+// postYield is called right after a release-type operation took effect.
+func postYield() {
+	if t := getCur(); t != nil && !t.aborted && t.sim.cfg.PostYields {
+		rpc(req{k: kYield})
+	}
+}
+
 // ---------------------------------------------------------------- Mutex
 
 type Mutex struct {
@@ -57,6 +64,7 @@ func (m *Mutex) Unlock() {
 	}
 	raceRelease(unsafe.Pointer(&m.sem))
 	rpc(req{k: kUnlock, p: unsafe.Pointer(m)})
+	postYield()
 }
 
 // ---------------------------------------------------------------- RWMutex
@@ -87,6 +95,7 @@ func (rw *RWMutex) RUnlock() {
 	}
 	raceReleaseMerge(unsafe.Pointer(&rw.writerSem))
 	rpc(req{k: kRUnlock, p: unsafe.Pointer(rw)})
+	postYield()
 }
 
 func (rw *RWMutex) Lock() {
@@ -112,6 +121,7 @@ func (rw *RWMutex) Unlock() {
 	}
 	raceRelease(unsafe.Pointer(&rw.readerSem))
 	rpc(req{k: kRWUnlock, p: unsafe.Pointer(rw)})
+	postYield()
 }
 
 func (rw *RWMutex) TryLock() bool {
@@ -290,6 +300,7 @@ func (p *Pool) Put(x interface{}) {
 	}
 	raceReleaseMerge(poolRaceAddr(x))
 	rpc(req{k: kPoolPut, p: unsafe.Pointer(p), x: x})
+	postYield()
 }
 
 func (p *Pool) Get() interface{} {
@@ -334,6 +345,9 @@ func (wg *WaitGroup) Add(delta int) {
 		raceReleaseMerge(unsafe.Pointer(&wg.sem))
 	}
 	rpc(req{k: kWGAdd, p: unsafe.Pointer(wg), n: delta})
+	if delta < 0 {
+		postYield()
+	}
 }
 
 func (wg *WaitGroup) Done() { wg.Add(-1) }
